@@ -149,7 +149,16 @@ class World:
         class Inst(Pool):
             supply = demand = utilisation = allocation = 0.0
 
-        self.pools = [Inst() for _ in range(3)]
+        class EmptyGroup(Inst):        # a pool that is a (currently empty) container: falsy, but a pool all the same
+            def __len__(self):
+                return 0
+
+        class IdlePool(Inst):
+            def __bool__(self):
+                return False
+
+        self.pools = [Inst(), EmptyGroup(), IdlePool()]
+        self.layer_classes = {}
         self.bases = {"C": Controller, "D": PoolDecorator, "P": Pool}
         self.specs = class_specs
         self.classes = [self._build(i, sp) for i, sp in enumerate(class_specs)]
@@ -167,9 +176,12 @@ class World:
                 body.update(supply=0.0, demand=0.0, utilisation=0.0, allocation=0.0)
             if layer["init"] is not None:
                 body["__init__"] = self._make_init(idx, layer["init"])
+            if sp.get("falsy") and j == 0:
+                body["__len__"] = lambda self: 0
             cls = type(cls)("G%d_%d" % (idx, j), (cls,), body)
             if layer["service"]:
                 cls = service(flavour=threading)(cls)
+            self.layer_classes.setdefault(idx, []).append(cls)
         return cls
 
     def _make_init(self, idx, s):
@@ -313,7 +325,10 @@ def rnd_class(rng, kind):
     if rng.random() < 0.5:          # most classes: not wrapped at all, so that the exact check is exercised
         for layer in layers:
             layer["service"] = False
-    return {"kind": kind, "layers": layers}
+    sp = {"kind": kind, "layers": layers}
+    if kind != "C" and rng.random() < 0.12:
+        sp["falsy"] = True       # instances are empty containers (len 0): falsy objects are objects all the same
+    return sp
 
 
 def spec_init_sig(sp):
@@ -495,6 +510,8 @@ def gen_chain(rng, n, shape=None, tail_form=None, quality=None):
     case = {"t": "chain", "classes": classes, "elems": elems, "tail": tail, "shape": shape, "quality": quality}
     if n >= 2 and rng.random() < 0.35:
         case["alias"] = rng.randrange(n)
+    if rng.random() < 0.3:
+        case["warm_bases"] = True
     return case
 
 
@@ -664,6 +681,16 @@ def run_impl(case):
     # chain
     out = {"layers": [live_layers(c) for c in world.classes], "kinds": [live_kind(c) for c in world.classes]}
     specs = list(case["elems"]) + ([case["tail"]["tmpl"]] if "tmpl" in case["tail"] else [])
+    if case.get("warm_bases"):
+        # the base classes of every element's class have been used as templates before (same process, earlier
+        # pipelines): what is learnt about a base class says nothing about its subclasses
+        for layer_list in world.layer_classes.values():
+            for base in layer_list[:-1]:
+                try:
+                    base.s()
+                except Exception:     # noqa
+                    pass
+        del world.log[:]
     flags, tmpls = [], []
     for el in specs:
         f, t = make_template(world, el)
